@@ -4,6 +4,7 @@ import (
 	"fmt"
 	"math"
 	"math/big"
+	"strconv"
 
 	"github.com/db47h/decimal"
 
@@ -23,13 +24,63 @@ var extremeI64 = []int64{math.MaxInt64, math.MinInt64, math.MaxInt64 - 1, math.M
 // library moves the words) on a precision-0 receiver. The precision becomes MaxPrec, 52 digits are cut off: the stored
 // value must fit its precision and say that it is inexact. One case per run; the value is judged by its canonical form
 // and accuracy only (the exact digits are a 1 followed by zeros and a final 7).
-func c20Huge(c *hx.Ctx, r *hx.RNG) {
+func c20Huge(c *hx.Ctx, r *hx.RNG, small bool) {
 	n := (1<<32)/19 + 2
 	mode := r.Mode()
 	what := fmt.Sprintf("SetBitsExp(%d words: top 10^18, low word 7, zeros in between; exponent 0) on a precision-0 receiver, mode=%s", n, oracle.ModeNames[mode])
 	c.Note(what)
 	w := make([]decimal.Word, n)
 	w[n-1], w[0] = decimal.Word(wb/10), 7
+	if small {
+		// a small explicit precision: the rounding digit sits more than 2^32 positions above the lowest one. The value is
+		// 0.<top word>0...07: judged against the surrogate 0.<top three words><59 zeros>1 (same rounding, same accuracy). The
+		// slice is handed over five times (SetBitsExp keeps it and rounds in place: its ends are rewritten before each
+		// call), once per precision, under different modes.
+		precs := []int64{10, 19, 25, 38, int64(r.Range(1, 50))}
+		var sur *big.Int
+		for i, p := range precs {
+			mode = (mode + 1 + r.Intn(2)) % len(oracle.ModeNames)
+			// the three top words: 57 random digits; every other time a to-nearest mode with a rounding digit of 5 or more
+			ds := r.Digits(57)
+			if i%2 == 0 {
+				mode = []int{oracle.ToNearestEven, oracle.ToNearestAway}[r.Intn(2)]
+				ds[p] = byte('5' + r.Intn(5))
+			}
+			if ds[0] == '0' {
+				ds[0] = '3'
+			}
+			for j := 0; j < 4; j++ {
+				w[j], w[n-1-j] = 0, 0
+			}
+			w[0] = 7
+			for j := 0; j < 3; j++ {
+				v, _ := strconv.ParseUint(string(ds[19*j:19*j+19]), 10, 64)
+				w[n-1-j] = decimal.Word(v)
+			}
+			what = fmt.Sprintf("SetBitsExp(%d words: top three %s, low word 7, zeros in between; exponent 0) prec=%d mode=%s", n, ds, p, oracle.ModeNames[mode])
+			c.Note(what)
+			sur, _ = new(big.Int).SetString(string(ds), 10)
+			z := newRecv(p, mode)
+			pi := hx.Try(func() { z.SetBitsExp(w, 0) })
+			c.Eval(hx.HashStr(what), true, "SetBitsExp/more-than-2^32-digits-small-precision")
+			if pi != nil {
+				c.Violate("panic", fmt.Sprintf("%s: %s panic %q at %s", what, pi.Class, pi.Text, pi.Stack), "")
+				return
+			}
+			sur.Mul(sur, new(big.Int).Exp(big.NewInt(10), big.NewInt(60), nil))
+			sur.Add(sur, big.NewInt(1))
+			o := oracle.Outcome{Ex: oracle.ExDec{Coef: sur, Exp: -117}}
+			got := hx.Snapshot(z)
+			if !valueVerdict(c, what, o, got, p, mode, "") {
+				return
+			}
+			if _, am := o.Check(got.V, got.Acc, p, mode); am != "" {
+				c.Violate("wrong-acc", what+": "+am, "")
+				return
+			}
+		}
+		return
+	}
 	z := newRecv(0, mode)
 	pi := hx.Try(func() { z.SetBitsExp(w, 0) })
 	c.Eval(hx.HashStr(what), true, "SetBitsExp/more-than-2^32-digits")
@@ -79,8 +130,8 @@ func c20HugeZeros(c *hx.Ctx, r *hx.RNG) {
 }
 
 func c20Case(c *hx.Ctx, r *hx.RNG, idx int64) {
-	if idx%2500000 == 9 {
-		c20Huge(c, r)
+	if m := idx % 2500000; m == 9 || m == 41 { // (same shard: precision 0, then a small explicit precision)
+		c20Huge(c, r, m == 41)
 		return
 	}
 	if idx%2500000 == 25 { // (same shard as the case above: one after the other)
